@@ -30,6 +30,15 @@ theorem run_gr (cfg : Cfg) (script : List PEntry) (evs : List Ev) : Ggr cfg (run
 theorem run_fo (cfg : Cfg) (script : List PEntry) (evs : List Ev) : Gfo (run cfg script evs) := by
   letI : EnvHyp := ⟨False⟩; exact (run_top0 cfg script evs).1.fo
 
+/-! The last two steps of `stop()`. -/
+theorem stopTimers_spec (x : St) : (stopTimers x).looper = none ∧ (∀ d dl a, (stopTimers x).commitCall ≠ .pending d dl a) := by
+  unfold stopTimers emit; grind
+theorem stopFinish_timers (x : St) : (stopFinish x).looper = x.looper ∧ (stopFinish x).commitCall = x.commitCall := by
+  unfold stopFinish crash emit; grind
+
+theorem stopFinish_requestD (x : St) : (stopFinish x).requestD = .none := by
+  unfold stopFinish crash emit; grind
+
 /-- The increasing-delivery part of the invariant, for event lists whose every event satisfies `EvOk`
     (`EnvHyp.sane := True`). -/
 theorem run_inc (cfg : Cfg) (script : List PEntry) (evs : List Ev) (he : ∀ e ∈ evs, EvOk e) :
